@@ -54,7 +54,7 @@ CASE_TIMEOUT = 20
 
 logging.disable(logging.CRITICAL)
 
-GENERATED = [c05_units.gen_units, c05_paths.gen_argpaths]
+GENERATED = [c05_units.gen_units, c05_paths.gen_argpaths, c05_paths.gen_catpaths]
 
 UNITS = ['pt', 'pc', 'in', 'bp', 'cm', 'mm', 'dd', 'cc', 'sp', 'ex', 'em']
 FILS = ['filll', 'fill', 'fil']
@@ -455,7 +455,7 @@ def gen_call_case(rng):
 
 # ---------------------------------------------------------------- arg stream
 
-ARGTYPES = [None, None, None, 'str', 'str', 'int', 'float', 'dimen', 'list', 'list', 'dict', 'Tok', 'nox', 'chr', 'number', 'double', 'length']
+ARGTYPES = [None, None, None, 'str', 'str', 'int', 'float', 'dimen', 'list', 'list', 'dict', 'Tok', 'nox', 'chr', 'number', 'double', 'length', 'url', 'url']
 LASTTYPES = ['Number', 'Dimen', 'Glue', 'Integer', 'Dimension', 'Skip']
 TYMAP = {None: 'none', 'str': 'str', 'chr': 'str', 'char': 'str', 'int': 'int', 'number': 'int', 'count': 'int', 'float': 'float', 'double': 'float',
          'dimen': 'dimen', 'dimension': 'dimen', 'length': 'dimen', 'list': 'list', 'dict': 'dict', 'nox': 'nox', 'Tok': 'tok', 'Token': 'tok',
@@ -474,6 +474,9 @@ def words_cps(words):
 def gen_value_words(rng, ty, sub, delim, brace=True, expect=None):
     """words of the content of a brace/bracket argument of the given type; `expect` (a list) receives the canonical
     value the property prescribes when it can be written down independently of the model (plain list / dictionary)"""
+    if ty == 'url':
+        # read under its own character categories (# ~ % & ordinary): the value is the text written
+        return [w_ch(ch) for ch in rng.choice(['http://h.org/', 'a/b.c', 'x']) + ''.join(rng.choice('~#%&ab1/.') for _ in range(rng.randint(0, 4)))]
     if ty in (None, 'nox'):
         c = gen_content(rng, 2, '')
         if ty == 'nox' and rng.random() < 0.4:
@@ -707,15 +710,29 @@ def run_parse(cls, words, with_src=True):
     doc.context['foo'] = cls
     tex.input(real_tokens(words, doc, 'dimen'))
     obj = doc.createElement('foo')
+    cats0 = cat_snapshot(doc)
     try:
         obj.parse(tex)
     except Exception as e:
         return canon_exc(e)
+    cats1 = cat_snapshot(doc)
     names = [a.name for a in obj.arguments]
     vals = ''.join(show_val(obj.attributes.get(n)) + ' ' for n in names)
     scanner = any(a.options.get('type') in ('Dimen', 'Length', 'Dimension', 'Glue', 'Skip', 'Number', 'Int', 'Integer') for a in obj.arguments)
     src = ('src:' + ('?' if scanner else cps_of(obj.argSource)) + ' ') if with_src else ''
-    return 'ok ' + vals + src + rest_of(tex) + level_note()
+    return 'ok ' + vals + src + rest_of(tex) + level_note() + cat_note(cats0, cats1)
+
+
+def cat_snapshot(doc):
+    """the character categories in force (as sets: restoring re-appends a character, the order is immaterial)"""
+    return [frozenset(c) for c in doc.context.categories]
+
+
+def cat_note(c0, c1):
+    if c0 == c1:
+        return ''
+    moved = sorted(set().union(*[a ^ b for a, b in zip(c0, c1)]))
+    return ' cat:' + '.'.join(str(ord(ch)) for ch in moved)
 
 
 # ---------------------------------------------------------------- framework API
@@ -887,6 +904,9 @@ def judge(o):
         if 'lvl:' in o.impl:
             o.prop_ok = False
             o.note = 'ParameterCommand enable counter not restored'
+        if 'cat:' in o.impl:
+            o.prop_ok = False
+            o.note = 'the character categories are not restored after the invocation (code points %s): what follows is read differently' % o.impl.split('cat:')[1].split()[0]
         vals = split_values(o.impl)
         for k, want in (o.case.meta.get('expect') or {}).items():
             k = int(k)
@@ -984,11 +1004,89 @@ def extra_checks(ctx):
             viol.append(Violation('after the document the parameter-expansion counter is not restored / a later register assignment is not executed (%s)' % what,
                                   {'kind': 'failing-input', 'extra': {'doc': body, 'expected_mycnt': expected},
                                    'observed': obs, 'expected': {'enable_level_after': 0, 'mycnt': expected}}))
+    fixed = [{'args': '[ link:url ] text', 'call': '{T}', 'tail': '|A~B 50\\% done % a comment\nnext', 'env': False},
+             {'args': '[ link:url ]', 'call': '', 'tail': '|A~B 50\\% done % a comment\nnext', 'env': True},
+             {'args': '[ link:url ] text', 'call': '[http://x.org/~u#frag]{T}', 'tail': '|A~B % c\nafter', 'env': False}]
+    for spec in fixed + [gen_follow_spec(rng) for _ in range(150 if ctx.tier == 'quick' else 2500)]:
+        n += 1
+        bad, obs = follow_fails(spec)
+        if len(samples) < 4:
+            samples.append({'follow': spec, 'observed': obs})
+        if bad:
+            viol.append(Violation('the text that follows the invocation is read differently from the same text after a macro without arguments',
+                                  {'kind': 'failing-input', 'extra': spec, 'observed': obs,
+                                   'expected': 'with_arguments == without_arguments'}))
     return viol, {'evaluations': n, 'distinct_nontrivial': n, 'samples': samples}
 
 
 def replay_extra(ctx, extra):
+    if 'args' in extra:
+        return follow_fails(extra)[0]
     return doc_fails(extra['doc'], extra['expected_mycnt'])[0]
+
+
+# ---- document level, through the real tokenizer: what follows an invocation is read exactly as if the macro took no arguments
+
+FOLLOW_ARGS = [  # (declaration, written when present, optional?)
+    ('a%d', '{x%d}', False), ('[ o%d ]', '[y%d]', True), ('[ u%d:url ]', '[http://h.org/~u#f%%20&z%d]', True), ('u%d:url', '{http://h.org/~v#g&%d}', False),
+    ('( p%d:str )', '(pq%d)', True), ('< q%d >', '<r%d>', True), ('k%d:dict', '{k=v,f%d}', False), ('[ l%d:list ]', '[a,b%d]', True),
+    ('n%d:int', '{12%d}', False), ('[ s%d:str ]', '[st%d]', True), ('i%d:id', '{lab%d}', False), ('[ c%d:chr ]', '[c%d]', True)]
+FOLLOW_TAILS = ['|A~B 50\\% done % a comment\nnext', '|x~y', '| 100% gone\nkept ~ z', '|p\\%q~r % c\n', '|plain text']
+
+
+def follow_source(spec, with_args):
+    name = 'fooenv' if spec['env'] else 'foo'
+    call = spec['call'] if with_args else ''
+    if spec['env']:
+        return '\\begin{%s}%s%s\\end{%s} after' % (name, call, spec['tail'], name)
+    return '\\%s%s%s' % (name, call, spec['tail'])
+
+
+def follow_observe(spec, with_args):
+    """source and text of what follows the invocation (command: the rest of the document; environment: its body)"""
+    import plasTeX
+    from plasTeX.TeX import TeX
+    from plasTeX import TeXDocument, ParameterCommand
+    ParameterCommand._enablelevel = 0
+    ParameterCommand.enabled = True
+    base = plasTeX.Environment if spec['env'] else plasTeX.Command
+    name = 'fooenv' if spec['env'] else 'foo'
+    cls = type(name, (base,), {'args': spec['args'] if with_args else ''})
+    doc = TeXDocument()
+    doc.context.addGlobal(name, cls)
+    tex = TeX(doc)
+    tex.input(follow_source(spec, with_args))
+    try:
+        out = tex.parse()
+        node = out.getElementsByTagName(name)[0]
+        if spec['env']:
+            return 'body:%r|%r' % (node.textContent, ''.join(getattr(c, 'source', str(c)) for c in node.childNodes))
+        kids = list(out.childNodes)
+        i = [k for k, c in enumerate(kids) if c is node][0]
+        after = kids[i + 1:]
+        return 'after:%r|%r' % (''.join(getattr(c, 'textContent', str(c)) for c in after), ''.join(getattr(c, 'source', str(c)) for c in after))
+    except Exception as e:
+        return canon_exc(e)
+
+
+def follow_fails(spec):
+    got = follow_observe(spec, True)
+    want = follow_observe(spec, False)
+    return got != want, {'with_arguments': got, 'without_arguments': want, 'document': follow_source(spec, True)}
+
+
+def gen_follow_spec(rng):
+    decl, call = [], []
+    pending = set()        # openers of optional arguments left out since the last written one (LaTeX's own ambiguity)
+    for i in range(rng.randint(1, 4)):
+        d, c, opt = rng.choice(FOLLOW_ARGS)
+        decl.append(d % i)
+        if not opt or (c[0] not in pending and rng.random() < 0.5):
+            call.append(c % i)
+            pending = set()
+        else:
+            pending.add(c[0])
+    return {'args': ' '.join(decl), 'call': ''.join(call), 'tail': rng.choice(FOLLOW_TAILS), 'env': rng.random() < 0.4}
 
 
 def search(ctx, evaluate, corr_bad):
